@@ -187,7 +187,7 @@ def serializeID (j : J) : Option J :=
 def serializeLeaf (s : SchemaD) (n : String) (j : J) : Option J :=
   -- the five specified scalars FIRST: a schema description may or may not list them (`canon_schema.dump_schema` leaves
   -- every type with one of these names out, `Spec.withBuiltins` lists them); listing them must not turn them into
-  -- custom scalars (`Props/C05_builtins.lean: serializeLeaf_withBuiltins`)
+  -- custom scalars (`Lemmas/C05Builtins.lean: serializeLeaf_withBuiltins`)
   if n == "Int" then serializeInt j
   else if n == "Float" then serializeFloat j
   else if n == "String" then serializeString j
